@@ -120,6 +120,11 @@ structure ColVol where
   bufAllocated : Bool           -- the column buffer's backing array exists (capacity is kept on purpose)
   bloomLength : Nat             -- live chunk's BloomFilterLength: only overwritten when a filter is written
   sizeStats : List Nat          -- NOT reset: overwritten by writeRowGroup (writer.go 1578)
+  /-- `c.geospatialAccumulator` and the live chunk's `GeospatialStatistics` (GEOMETRY / GEOGRAPHY
+  columns; geospatial_statistics.go 15-27) as a bit mask: 1 hasValues, 2 hasGeomTypes, 4 parseError,
+  8 hasZ, 16 hasM, 32 a bound differs from its initial +Inf or -Inf, 64 the type set is not empty,
+  128 the live column chunk holds statistics. 0 = as constructed (and: no accumulator). -/
+  geo : Nat
 deriving DecidableEq
 
 structure Col where
@@ -135,7 +140,7 @@ def ColVol.fresh (st : ColStable) : ColVol :=
     totalUncompressed := 0, totalCompressed := 0, dataPageOffset := 0, dictPageOffset := 0,
     stats := none, encodingStats := [], bloomOffset := 0, pageLocations := [], totalUnencoded := 0,
     levelHist := List.replicate st.histLen 0, pageLevelHists := [], bufAllocated := false,
-    bloomLength := 0, sizeStats := [] }
+    bloomLength := 0, sizeStats := [], geo := 0 }
 
 /-- MIRROR `(*ColumnWriter).reset`, writer.go 2024-2073, before the F24 repair -/
 def colResetAsIs (c : Col) : Col :=
@@ -163,7 +168,9 @@ def colResetAsIs (c : Col) : Col :=
       pageLocations := []
       totalUnencoded := 0
       levelHist := v.levelHist.map (fun _ => 0)   -- clear(c.repetitionLevelHistogram) keeps the length
-      pageLevelHists := [] } }
+      pageLevelHists := []
+      geo := 0 } }                    -- GeospatialStatistics = {}; c.geospatialAccumulator.reset()
+                                      -- (geospatial_statistics.go 35-46: every flag, every bound, a new type set)
 
 /-- MIRROR of the repaired `(*ColumnWriter).reset`: additionally `c.plainColumnBuffer.Reset()`
 (F24) and `c.columnChunk.MetaData.BloomFilterLength = 0` (F26) -/
@@ -244,6 +251,12 @@ def fixed : Mirror := ⟨colResetFixed, fun h rg => rowGroupResetHeap h rg.detac
 chunk"): harmless inside one file (the final merge drops duplicates anyway), refuted across
 `Reset` in Props/C17 -/
 def dedupeCarry : Mirror := { fixed with dedupeAfterChunk := fun last => last }
+/-- a variant of `fixed` whose `geospatialBBoxAccumulator.reset` re-initialises the M bounds but
+leaves the `hasM` flag (bit 16) set (seeded change C17-4a): refuted in Props/C17 -/
+def geoKeepsHasM : Mirror :=
+  { fixed with colReset := fun c =>
+      let c' := colResetFixed c
+      { c' with vol := { c'.vol with geo := if c.vol.geo / 16 % 2 = 1 then 16 else 0 } } }
 
 /-- MIRROR `(*writer).reset`, writer.go 1201-1233 -/
 def resetWith (M : Mirror) (s : Writer) : Writer :=
